@@ -187,6 +187,32 @@ def _tolist(I, a):
     return I.new_list([I.new_list(list(r)) for r in a.data])
 
 
+class PRes(PList):
+    """pyparsing.ParseResults model: a list of tokens (A8); asList() gives plain nested lists."""
+
+    __slots__ = ()
+
+    def ext_isinstance(self, I, c):
+        return c.name == "ParseResults"
+
+    def ext_getattr(self, I, name):
+        from .core import BoundM
+        from .interp import _builtin_method
+
+        if name in ("asList", "as_list"):
+
+            def as_list(I2, a, k):
+                def conv(x):
+                    if isinstance(x, PRes):
+                        return I2.new_list([conv(y) for y in x.items])
+                    return x
+
+                return conv(self)
+
+            return NativeFn("ParseResults.asList", as_list)
+        return BoundM(NativeFn(name, _builtin_method(name)), self)
+
+
 def np_array(I, a, k):
     v = a[0]
     if isinstance(v, NArr):
